@@ -1,0 +1,21 @@
+//go:build verif
+
+package announce
+
+// Verification hook (build tag verif): exposes the unexported duplicate
+// filter so that it can be compared with a reference model exhaustively.
+
+// VerifStringLRU wraps the receiver's duplicate filter.
+type VerifStringLRU struct{ l *stringLRU }
+
+// VerifNewStringLRU creates a duplicate filter with the given capacity.
+func VerifNewStringLRU(maxEntries int) VerifStringLRU {
+	return VerifStringLRU{l: newStringLRU(maxEntries)}
+}
+
+func (v VerifStringLRU) Update(s string) bool { return v.l.update(s) }
+func (v VerifStringLRU) Remove(s string) bool { return v.l.remove(s) }
+func (v VerifStringLRU) Len() int             { return v.l.len() }
+
+// VerifAnnounceCacheSize is the capacity the receiver uses.
+const VerifAnnounceCacheSize = announceCacheSize
